@@ -248,6 +248,26 @@ def classify(ctx, u, f, s, keys, fold):
                 _step_on_every_iteration(ctx, f, s, ptr_steps)
             if every:
                 return ('cursor', '%s advances every iteration, exit on the character read' % pk.split('#')[0], None)
+    # C2: the same scan written with an index: base[i] read and tested, i stepped every iteration, base not moved
+    idx_steps = [(wk, x) for (wk, x) in ws if x.get('opcode') in ('++',) and int_type(dtype(kids(x)[0]) or '') and
+                 peel(kids(x)[0]).get('kind') == 'DeclRefExpr']
+    for (ik, stepx) in idx_steps:
+        tests = []
+        for x in walk(s):
+            if x.get('kind') == 'ArraySubscriptExpr' and keys.key(kids(x)[1]) == ik and \
+                    (dtype(kids(x)[0]) or qtype(kids(x)[0]) or '').replace('const', '').replace(' ', '').endswith('char*'):
+                bk_ = keys.key(kids(x)[0])
+                if not [wk for (wk, y) in ws if wk == bk_]:
+                    tests.append(x)
+        if not tests:
+            continue
+        in_cond = [t for t in tests if (lp['cond'] is not None and any(y is t for y in walk(lp['cond']))) or
+                   (lp.get('condvar') is not None and any(y is t for y in walk(lp['condvar'])))]
+        exits_in_body = [x for x in walk(body) if x.get('kind') in ('BreakStmt', 'ReturnStmt')] if body is not None else []
+        if in_cond or exits_in_body:
+            every = any(stepx is w[1] for w in ws_inc + ws_cond) or _step_on_every_iteration(ctx, f, s, [(ik, stepx)])
+            if every:
+                return ('cursor', '%s indexes the string further every iteration, exit on the character read' % ik.split('#')[0], None)
     # D1: for(;;) / while(true) with an equality break on a counter stepped once per iteration
     cond_true = lp['cond'] is None or fold.fold(lp['cond']) not in (None, 0)
     if cond_true and body is not None:
